@@ -1,0 +1,29 @@
+//go:build verif
+
+// Package c02 re-exports the verification hooks of internal/martian that
+// property C02 needs (response framing and flushing), because a module outside
+// this repository cannot import internal packages. Compiled only with -tags verif.
+package c02
+
+import (
+	"io"
+	"net/http"
+
+	"github.com/saucelabs/forwarder/internal/martian"
+)
+
+type Flusher = martian.VerifC02Flusher
+
+func WriteHeaderOnlyResponse(w io.Writer, res *http.Response) error {
+	return martian.VerifC02WriteHeaderOnlyResponse(w, res)
+}
+
+func ShouldChunk(res *http.Response) bool { return martian.VerifC02ShouldChunk(res) }
+
+func IsHeaderOnlySpec(res *http.Response) bool { return martian.VerifC02IsHeaderOnlySpec(res) }
+
+func IsTextEventStream(res *http.Response) bool { return martian.VerifC02IsTextEventStream(res) }
+
+func NewPatternFlushWriter(w io.Writer, f Flusher, patterns ...[2]byte) (io.Writer, error) {
+	return martian.VerifC02NewPatternFlushWriter(w, f, patterns...)
+}
